@@ -101,7 +101,39 @@ fn main() {
         let elems: Vec<i128> = (0..n).map(|_| c.i128()).collect();
         // kinds 6..8: the container is a concatenation built in the template: lazy + list, list + lazy,
         // list|chain(lazy); p holds the first half of the elements, q the second half
-        let (base, x, p, q) = if (6..=8).contains(&kind) {
+        let lit_src: String;
+        let (base, x, p, q) = if kind == 9 || kind == 10 {
+            // the container is written as a LITERAL in the template source (constant folding sees it)
+            lit_src = if kind == 9 {
+                let mut t = String::from("'");
+                for c in &elems {
+                    let ch = char::from_u32(*c as u32).unwrap_or('?');
+                    if ch == '\'' || ch == '\\' {
+                        t.push('\\');
+                    }
+                    t.push(ch);
+                }
+                t.push('\'');
+                t
+            } else {
+                format!(
+                    "[{}]",
+                    elems.iter().map(|e| e.to_string()).collect::<Vec<_>>().join(", ")
+                )
+            };
+            (lit_src.as_str(), Value::UNDEFINED, Value::UNDEFINED, Value::UNDEFINED)
+        } else if kind == 11 || kind == 12 {
+            let t: String = elems
+                .iter()
+                .map(|c| char::from_u32(*c as u32).unwrap_or('?'))
+                .collect();
+            let v = if kind == 11 {
+                Value::from_safe_string(t)
+            } else {
+                Value::from(std::sync::Arc::<str>::from(t))
+            };
+            ("x", v, Value::UNDEFINED, Value::UNDEFINED)
+        } else if (6..=8).contains(&kind) {
             let h = n / 2;
             let (pk, qk) = match kind {
                 6 => (5, 3),
